@@ -299,6 +299,20 @@ prop(
     assumptions=["the directory is used by one engine; a file's bytes are valid only when complete (the footer is written last; the scan rejects shorter prefixes - exercised by the reopen step, not proved)"],
 )
 
+prop(
+    "C14",
+    lean_modules=["BloomVerif.Lemmas.Snapshot", "BloomVerif.Props.C14"],
+    technique="Lean 4 invariant proof over every interleaving of publish / flush commit / atomic merge commit / tombstone events with the steps of a query (MemoryMetaStore discipline) + proved counterexamples for the directory discipline + scheduled interleavings on the real engine whose recorded store-call traces are replayed on the model + free-running stress with the result monitor",
+    design_ref="DESIGN.md section 4 C14",
+    text="Machine-checked for MemoryMetaStore: for every event sequence accepted by the model (files immutable once published; a flush commits new rows; a merge commit atomically swaps committed sources for live outputs holding the same rows - C11/C13; only uncommitted files are tombstoned), "
+         "a query that completes with no error returns no row twice, every matching row acknowledged before it began, and only acknowledged matching rows; a tombstoned file the snapshot still needed makes the query fail. "
+         "For FileSystemDataStore used as MetaStore the statement is false of the unchanged code - the directory listing is not atomic with the per-file reads and a merge removes sources after publishing the output: silent omission and silent duplication "
+         "(theorems C14_directory_omission / C14_directory_duplication, both schedules driven on the real store on every run; known findings); proved for it: no omission in histories without removals. "
+         "Partial: goroutine scheduling is explored (park points at the snapshot, every OpenFile and Read position, free-running stress), not proved; the model's guards are validated by trace acceptance on every schedule.",
+    trusted_base=[KERNEL, AXIOMS, TDIFF, HOOKS, "the recording in-memory DataStore / logging MetaStore wrapper of the harness (its call log is the linearisation the model replays); modelled, not verified: the query pipeline's goroutines, the RWMutex of MemoryMetaStore, os.ReadDir"],
+    assumptions=["rows are identified by a unique _id; a handle opened before its file is tombstoned keeps reading (POSIX unlink semantics, mirrored by the in-memory store)"],
+)
+
 QUERY_TB = [KERNEL, AXIOMS, TDIFF, HOOKS, "the auditing in-memory DataStore of the harness (per-handle open/seek/read/close log, use-after-close / concurrent-use / double-close detection, concurrent-read gauge, k-th-call faults)",
             "modelled, not verified: goroutine scheduling, channels, sync primitives and context of the query pipeline; the Lean models are hand-written and tied by differential / schedule exploration, not by the translator"]
 
